@@ -532,6 +532,8 @@ struct RealReplayFile {
     shape: (usize, usize),
     class: String,
     detail: String,
+    #[serde(default)]
+    forced_split: bool,
 }
 
 fn real_main(property: &str, seed: u64, tier: Tier, replay: Option<String>, runs_override: Option<u64>, dump: bool) -> i32 {
@@ -549,7 +551,7 @@ fn real_main(property: &str, seed: u64, tier: Tier, replay: Option<String>, runs
     let shapes: Vec<(usize, usize)> = match &replay_file {
         Some(rf) => vec![rf.shape],
         None => {
-            if quick { vec![(2, 2), (1, 1)] } else { vec![(2, 2), (1, 1), (2, 1), (1, 2)] }
+            if quick { vec![(2, 2), (1, 1)] } else { vec![(2, 2), (1, 1), (2, 1), (1, 2), (3, 2), (2, 3), (4, 2)] }
         }
     };
     let arts: Vec<real::Artifacts> = {
@@ -561,7 +563,7 @@ fn real_main(property: &str, seed: u64, tier: Tier, replay: Option<String>, runs
     };
     println!("artifacts for {:?} built at {:.1}s", shapes, (qpz_core::real_now_ns() - t0) as f64 / 1e9);
     if let Some(rf) = &replay_file {
-        let out = real::run_real(&arts[0], rf.run_seed, c18, c36);
+        let out = real::run_real(&arts[0], rf.run_seed, c18, c36, rf.forced_split);
         for l in &out.log {
             println!("  {l}");
         }
@@ -585,7 +587,9 @@ fn real_main(property: &str, seed: u64, tier: Tier, replay: Option<String>, runs
         |_, run| {
             let rseed = mix(pseed, run);
             let ai = (run as usize) % arts.len();
-            let out = real::run_real(&arts[ai], rseed, c18, c36);
+            // the first run of every shape uses the forced split (padding at both layers)
+            let forced = (run as usize) < arts.len();
+            let out = real::run_real(&arts[ai], rseed, c18, c36, forced);
             (rseed, ai, out)
         },
         |(_, _, out)| out.findings.iter().any(|f| f.class.starts_with(prefix)),
@@ -637,7 +641,7 @@ fn real_main(property: &str, seed: u64, tier: Tier, replay: Option<String>, runs
     let mut exit = EXIT_OK;
     let mut replay_path = String::new();
     if let Some((rseed, ai, f)) = &first {
-        let rf = RealReplayFile { property: property.into(), sim: "pool".into(), mode: "real".into(), seed, run_seed: *rseed, shape: shapes[*ai], class: f.class.clone(), detail: f.detail.clone() };
+        let rf = RealReplayFile { property: property.into(), sim: "pool".into(), mode: "real".into(), seed, run_seed: *rseed, shape: shapes[*ai], class: f.class.clone(), detail: f.detail.clone(), forced_split: results.iter().any(|(run, (s, _, _))| s == rseed && (*run as usize) < arts.len()) };
         replay_path = format!("{}/{property}-{rseed}.json", qpz_core::replay_dir());
         std::fs::write(&replay_path, serde_json::to_string_pretty(&rf).unwrap()).unwrap();
         println!("violation class={} seed={rseed} shape={:?}: {}", f.class, shapes[*ai], f.detail);
@@ -670,7 +674,7 @@ fn real_main(property: &str, seed: u64, tier: Tier, replay: Option<String>, runs
     let (rule, assumptions): (&str, Vec<String>) = if c18 {
         ("one evaluation = one simulated run in which two aggregators with different addresses (random, differing in one felt, or all-zero) load the same generated artifacts, pool real private-batch proofs, prove public batches and gossip them; every returned proof is checked at the chain, at its producer and at the other miner, as is and corrupted in flight; distinct = distinct event log (public inputs only); non-trivial = at least one public-batch proof was produced", vec!["proofs 'valid under another address' are obtained the only way they can be: produced by the other miner in the run".into()])
     } else {
-        ("one evaluation = one simulated run of the two-layer pipeline on honest inputs: deposits in a 4-ary tree under a real header, real leaf proofs split into padded private batches (slot order and dummy preimages from the RNG seam), pooled, snapshot and proved into public batches; each public proof the chain verifies is compared with a native oracle (value per account, nullifier multiset incl. H(H(u)) of dummy preimages, zero padding segments); distinct = distinct event log; non-trivial = at least one public-batch proof was produced", vec!["honest executions only: says nothing about adversarial witnesses (C06-C13 are not applicable to this technique)".into(), "N, M in {1,2}".into()])
+        ("one evaluation = one simulated run of the two-layer pipeline on honest inputs: deposits in a 4-ary tree under a real header, real leaf proofs split into padded private batches (slot order and dummy preimages from the RNG seam), pooled, snapshot and proved into public batches; each public proof the chain verifies is compared with a native oracle (value per account, nullifier multiset incl. H(H(u)) of dummy preimages, zero padding segments); distinct = distinct event log; non-trivial = at least one public-batch proof was produced", vec!["honest executions only: says nothing about adversarial witnesses (C06-C13 are not applicable to this technique)".into(), "shapes (N, M): quick (2,2) and (1,1); thorough adds (2,1), (1,2), (3,2), (2,3), (4,2)".into()])
     };
     let ev = Evidence {
         property_id: property.into(),
